@@ -295,7 +295,16 @@ theorem rs_decode_encode_single (F : GF) (h : FieldOK F) (hb : F.base ≤ 1) (da
   obtain ⟨w, h1, h2, h3, h4⟩ := rs_encode_zero_syndromes F h data r hk (by omega) hd hrb
   exact ⟨w, h2, h1, rs_corrects_single F h hb w r j e hr hrb (by omega) h3 h4 (by omega) he0 he⟩
 
-/-! non-vacuity: instances with one and two corrupted symbols (kernel evaluation) -/
+/-! non-vacuity: the hypotheses of the theorems of this section are satisfiable — a concrete GF(16) code word
+    (7 symbols, 4 parity symbols), its weight-2 neighbour, and instances with corrupted symbols -/
+example : ZeroSyndromes aztecParam [5, 10, 3, 9, 6, 2, 14] 4 := by unfold ZeroSyndromes; decide +kernel
+example : InField aztecParam [5, 10, 3, 9, 6, 2, 14] ∧ [5, 10, 3, 9, 6, 2, 14].length ≤ aztecParam.size - 1 ∧
+    4 + aztecParam.base ≤ aztecParam.size ∧ aztecParam.base ≤ 1 := by unfold InField; decide +kernel
+example : weight (List.zipWith (· ^^^ ·) [5, 10, 3, 9, 6, 2, 14] [5, 11, 3, 9, 6, 2, 1]) = 2 := by decide
+/-- the minimum distance is attained: a second code word at distance exactly r + 1 = 5 -/
+example : ZeroSyndromes aztecParam [5, 10, 2, 4, 10, 10, 9] 4 ∧
+    weight (List.zipWith (· ^^^ ·) [5, 10, 3, 9, 6, 2, 14] [5, 10, 2, 4, 10, 10, 9]) = 5 := by
+  unfold ZeroSyndromes; decide +kernel
 example : decode aztecParam ([5, 10, 3, 9, 6, 2, 14].set 2 (3 ^^^ 7)) 4 = .ok [5, 10, 3, 9, 6, 2, 14] := by
   decide +kernel
 
